@@ -67,6 +67,14 @@ class Scratch(object):
         return False
 
 
+def cwd_or_gone():
+    """os.getcwd(), or a marker when the process sits in a directory that no longer exists"""
+    try:
+        return os.getcwd()
+    except OSError:
+        return '<a directory that has been removed>'
+
+
 def child_env(**extra):
     env = dict(os.environ)
     env['PYTHONPATH'] = LIB + os.pathsep + repo_root()
